@@ -676,6 +676,8 @@ def ds_field_writes(I, n, selft):
         if cls is not None and cls.is_namedtuple:
             names = cls.nt_fields()
             return [(f_, v[1][names.index(f_)]) for f_ in (N.DS_ACTIVE, N.DS_INDENT) if f_ in names and names.index(f_) < len(v[1])]
+        if isinstance(v, tuple) and v and v[0] == "ref" and isinstance(I.obj(v), HInst):
+            return []           # a new state object: what its constructor stores is seen where it stores it
         return [(N.DS_ACTIVE, ("opaque", "state object replaced")), (N.DS_INDENT, ("opaque", "state object replaced"))]
     return []
 
